@@ -169,11 +169,15 @@ def parseCRes (j : Json) : R CRes :=
 def parseLayer (j : Json) : R Layer := do
   match (← arr j) with
   | [a, b, c, d] => return { declMin := ← a.getBool?, declMax := ← b.getBool?, declLimits := ← c.getBool?, ownCheck := ← d.getBool? }
+  | [a, b, c, d, r] =>
+    let ro ← (match r with | .null => pure none | .bool x => pure (some x) | _ => throw "bad readonly of a layer" : R (Option Bool))
+    return { declMin := ← a.getBool?, declMax := ← b.getBool?, declLimits := ← c.getBool?, ownCheck := ← d.getBool?, ro := ro }
   | _ => throw "bad layer"
 
 def parseLOp (j : Json) : R LOp := do
   match (← arr j) with
   | [.str "write", x, c, w] => return .write (← x.getInt?) (← (← arr c).mapM parseCRes) (← wresWith (·.getInt?) w)
+  | [.str "write", x, c, w, cl] => return .write (← x.getInt?) (← (← arr c).mapM parseCRes) (← wresWith (·.getInt?) w) (← cl.getBool?)
   | [.str "writeMin", x] => return .writeMin (← x.getInt?)
   | [.str "writeMax", x] => return .writeMax (← x.getInt?)
   | [.str "writeLimits", a, b] => return .writeLimits (← a.getInt?) (← b.getInt?)
@@ -212,7 +216,8 @@ def parseLRec (j : Json) : R LRec := do
 
 def lcfg (j : Json) : R LCfg := do
   return { lo := ← fldInt j "lo", hi := ← fldInt j "hi", layers := ← (← fldArr j "layers").mapM parseLayer,
-           hasW := ← fldBool j "hasW", omitUnch := ← fldBool j "omit" }
+           hasW := ← fldBool j "hasW", omitUnch := ← fldBool j "omit",
+           roCfg := match j.getObjVal? "roCfg" with | .ok (.bool b) => some b | _ => none }
 
 /-! control -/
 
@@ -225,6 +230,29 @@ def parseCOp (j : Json) : R Frappy.Control.Op := do
   | [.str "selfControlled", o] => return .selfControlled (← o.getNat?)
   | [.str "updateTarget", o, k] => return .updateTarget (← o.getNat?) (← k.getNat?)
   | _ => throw s!"bad control op {j.compress}"
+
+def parseSRes (j : Json) : R Frappy.Control.SRes :=
+  match j with
+  | .str "ok" => pure .ok
+  | .str "before" => pure .failBefore
+  | .str "after" => pure .failAfter
+  | _ => throw s!"bad set_control_active outcome {j.compress}"
+
+/-- `[[input, active, outcome], …]` → what the `set_control_active` methods do during one operation -/
+def parseFaults (j : Json) : R Frappy.Control.Faults := do
+  let es ← (← arr j).mapM (fun e => do
+    match (← arr e) with
+    | [i, b, r] => return ((← i.getNat?), (← b.getBool?), (← parseSRes r))
+    | _ => throw "bad fault entry")
+  return fun i b => match es.find? (fun e => e.1 == i && e.2.1 == b) with
+    | some e => e.2.2
+    | none => .ok
+
+/-- an operation with its faults: `{"op": […], "faults": […]}` or the bare operation -/
+def parseCOpF (j : Json) : R (Frappy.Control.Op × Frappy.Control.Faults) := do
+  match j.getObjVal? "op" with
+  | .ok o => return (← parseCOp o, ← parseFaults (← fld j "faults"))
+  | .error _ => return (← parseCOp j, Frappy.Control.noFaults)
 
 def controlCfg (j : Json) : R (Frappy.Control.Cfg × List Nat) := do
   let outs ← fldNats j "outs"
@@ -247,25 +275,28 @@ def cstJson (cfg : Frappy.Control.Cfg) (s : Frappy.Control.St) : Json :=
               ("actP", jarr ((List.range cfg.n).map (fun i => Json.bool (s.actP i)))),
               ("evs", jarr (s.evs.map cevJson)), ("ok", Json.bool s.ok)]
 
-/-- the output whose `strong` expectation ends with this operation: a direct `deactivate_control` of one of its inputs -/
-def weakens (cfg : Frappy.Control.Cfg) : Frappy.Control.Op → Option Nat
+/-- the output whose `strong` expectation ends with this operation: a direct `deactivate_control` of one of its inputs, or
+an operation on it that did not return (a take-over that stopped half-way may leave the output naming an input that is not
+marked — never the other way round) -/
+def weakens (cfg : Frappy.Control.Cfg) (ok : Bool) : Frappy.Control.Op → Option Nat
   | .deactivate k => if Frappy.Control.validIn cfg k then some (cfg.outOf k) else none
-  | _ => none
+  | op => if ok then none else some (targetOf cfg op)
 
 /-- records for the monitor: the clause that applies to each operation is read off the operation and the
 flags recorded before it -/
-def mkCRecs (cfg : Frappy.Control.Cfg) : List (Frappy.Control.Op × (List (Option Nat) × List Bool)) →
+def mkCRecs (cfg : Frappy.Control.Cfg) : List (Frappy.Control.Op × (Bool × List (Option Nat) × List Bool)) →
     (List (Option Nat) × List Bool) → List Bool → List CRec
   | [], _, _ => []
-  | (op, (cb, act)) :: rest, (cbB, actB), strong =>
-    let strong' := match weakens cfg op with
+  | (op, (ok, cb, act)) :: rest, (cbB, actB), strong =>
+    let strong' := match weakens cfg ok op with
       | some o => strong.set o false
       | none => strong
-    { takeover := takeoverOf cfg (fun i => actB.getD i false) op, target := some (targetOf cfg op), strong := strong',
+    { takeover := takeoverOf cfg (fun i => actB.getD i false) op, target := some (targetOf cfg op), ok := ok, strong := strong',
       cbB := cbB, actB := actB, cb := cb, act := act } :: mkCRecs cfg rest (cb, act) strong'
 
-def parseCState (j : Json) : R (List (Option Nat) × List Bool) := do
-  return (← (← fldArr j "cb").mapM optNat, ← (← fldArr j "act").mapM (·.getBool?))
+def parseCState (j : Json) : R (Bool × List (Option Nat) × List Bool) := do
+  let ok := match j.getObjVal? "ok" with | .ok (.bool b) => b | _ => true
+  return (ok, ← (← fldArr j "cb").mapM optNat, ← (← fldArr j "act").mapM (·.getBool?))
 
 /-- indices of all records the monitor rejects -/
 def badIdxs {α : Type} (okB : α → Bool) : List α → Nat → List Nat
@@ -296,11 +327,19 @@ def handle (j : Json) : R Json := do
     return Json.mkObj [("init", stJson s0), ("states", jarr ((orun cfg s0 ops).map stJson))]
   | "judge_struct" =>
     let members ← fldStrs j "members"
+    -- a record: [struct, members] or [struct, members, {ok, announced, flagged}] (error states)
     let trace ← (← fldArr j "trace").mapM (fun e => do
       match (← arr e) with
-      | [a, b] => return (← parseDict a, ← parseDict b)
+      | [a, b] => return (← parseDict a, ← parseDict b, ({} : SInfo))
+      | [a, b, i] => return (← parseDict a, ← parseDict b,
+          ({ ok := ← fldBool i "ok", announced := ← fldBool i "announced", flagged := ← fldStrs i "flagged" } : SInfo))
       | _ => throw "bad trace entry")
-    return verdict (judgeStruct members trace 0) (badIdxs (fun e => membersAgreeB members e.1 e.2) trace 0)
+    let bads := badIdxs (structRecOkB members) trace 0
+    -- which clause each rejected record breaks (for the report)
+    let clauses := (trace.zip (List.range trace.length)).filterMap (fun (e, i) =>
+      if structRecOkB members e then none
+      else some (jarr [jnat i, Json.str (if membersAgreeB members e.1 e.2.1 then "member-left-in-error-state" else "values-differ")]))
+    return Json.mkObj [("bad", jopt jnat (judgeStructR members trace 0)), ("bads", jnats bads), ("clauses", jarr clauses)]
   | "floatenum" =>
     let cfg : FCfg := { vdict := ← parseVdict (← fld j "vdict"), lo := ← fldInt j "lo", hi := ← fldInt j "hi",
                         hasR := ← fldBool j "hasR", hasW := ← fldBool j "hasW", omitUnch := ← fldBool j "omit" }
@@ -328,16 +367,16 @@ def handle (j : Json) : R Json := do
     let trace ← (← fldArr j "trace").mapM parseLRec
     return verdict (judgeLimits layers trace 0) (badIdxs (limitsOkB layers) trace 0)
   | "control" =>
-    let (cfg, _) ← controlCfg j; let ops ← (← fldArr j "ops").mapM parseCOp
+    let (cfg, _) ← controlCfg j; let ops ← (← fldArr j "ops").mapM parseCOpF
     let cbP0 := optBools j "cbP0"; let actP0 := optBools j "actP0"
     let s0 : Frappy.Control.St := { Frappy.Control.init with cbP := fun o => cbP0.getD o false, actP := fun i => actP0.getD i false }
     return Json.mkObj [("init", cstJson cfg s0),
                        ("states", jarr ((Frappy.Control.run cfg s0 ops).map (cstJson cfg)))]
   | "judge_control" =>
-    let (cfg, outs) ← controlCfg j; let ops ← (← fldArr j "ops").mapM parseCOp
+    let (cfg, outs) ← controlCfg j; let ops ← (← fldArr j "ops").mapM (fun o => do return (← parseCOpF o).1)
     let sts ← (← fldArr j "trace").mapM parseCState
     if sts.length ≠ ops.length + 1 then throw "length mismatch (the trace starts with the initial state)"
-    let (cb0, act0) := sts.head!
+    let (_, cb0, act0) := sts.head!
     let strong0 := List.replicate cfg.nout true
     let recs := { takeover := .no, target := none, strong := strong0, cbB := cb0, actB := act0, cb := cb0, act := act0 : CRec }
       :: mkCRecs cfg (ops.zip sts.tail!) (cb0, act0) strong0
